@@ -25,7 +25,7 @@ RULE = ("Alphabet of ~34 write operations over 10 Sids taken from the live confi
 ASSUME = ["two entities whose paths differ only by the extension may share one data store or not (the statement excludes that pair): both the "
           "own overlay and the merged overlay are accepted for them", "get_data of a Sid without path may be {} or only its 'sid' entry",
           "tree reset between sequences is done by the harness (rmtree of the configured root)"]
-BUDGET = {"quick": (2, 480, 24, 3, 7), "thorough": (3, 9600, 160, 4, 12)}     # (exhaustive length, random sequences, fresh-process reads, sampled length, 1/k sample)
+BUDGET = {"quick": (2, 400, 24, 3, 14), "thorough": (3, 9600, 160, 4, 12)}     # (exhaustive length, random sequences, fresh-process reads, sampled length, 1/k sample)
 NSHARDS = 16
 
 
@@ -100,6 +100,15 @@ def build_alphabet(lab, which=0):
     al = {"F1": f1, "F2": f2, "V": anc[0], "T": anc[1], "N": nopath, "U": "bla/bla"}
     if len(anc) > 2:
         al["A"] = anc[2]     # the folder above the task (an open, possibly dotted, name)
+        # two siblings of it whose names start with a dot ("hidden" folders are folders)
+        pa = anc[2].split("/")
+        for hk, hn in (("H1", ".hid1"), ("H2", ".hid2")):
+            h = "/".join(pa[:-1] + [hn])
+            if model.natural(h) is model.natural(anc[2]):
+                al[hk] = h
+        dd = "/".join(pa[:-1] + [".."])
+        if model.natural(dd) is model.natural(anc[2]):
+            al["DD"] = dd      # observed only: '..' names a folder that is there without anything having been created
     # a second, unrelated file (isolation)
     for _ in range(200):
         g = vocab.valid_string(t, rng, pool=["claudius"], small=True)
@@ -145,14 +154,14 @@ def build_alphabet(lab, which=0):
 def ops_alphabet(al):
     ops = []
     for r in al:
-        if r.startswith("anc:"):
+        if r.startswith("anc:") or r == "DD":
             continue            # observed only
         ops.append(("create", r, None))
     for r in ("F1", "V", "A"):
         if r in al:
             ops.append(("create", r, "k1"))
     for r in al:
-        if r.startswith("anc:") or r.startswith("C"):
+        if r.startswith("anc:") or r.startswith("C") or r == "DD":
             continue
         if r in ("U",):
             ops.append(("set", r, "k1"))
@@ -166,6 +175,8 @@ def ops_alphabet(al):
             ops.append(("setpos", r, "k1"))      # positional form set(sid, attribute, value), falsy values
         if r in ("F1", "P"):
             ops.append(("set", r, "sid"))        # an attribute that happens to be called 'sid': the record's own Sid still wins
+        if r in ("H1",):
+            ops.append(("set", r, "k2"))
         if r in ("F1", "G", "V"):
             ops.append(("update_shared", r, "k3"))   # the client passes ONE dict object to several calls (adding a key each time)
         if r in ("G", "P"):
@@ -320,8 +331,8 @@ def run_sequence(rec, lab, al, ops, hid, fresh=False, config=None):
                 if par:
                     found = {str(r) for r in finder.find(par + "/*")}
                     if (e2 in found) != m.exists(e2):
-                        rec.violation("search_vs_existence", dict(c, sid=e2), "in find(%s/*): %r, model exists: %r" % (par, e2 in found, m.exists(e2)))
-                        return False
+                        if rec.violation("search_vs_existence", dict(c, sid=e2), "in find(%s/*): %r, model exists: %r" % (par, e2 in found, m.exists(e2))):
+                            return False       # (a listed known finding does not end the sequence)
                     phantom = found - m.existing
                     if phantom:
                         # nothing exists that was not created (attribute writes create no entity)
